@@ -124,7 +124,7 @@ def _offstr(sec):
     return '%s%02d%02d' % (s, sec // 3600, sec % 3600 // 60)
 
 
-def vtimezone(p, first_year=1990, order=0, rdate_years=None, tzid='Test/Zone', crlf=True, fold=False, extra_zone=None):
+def vtimezone(p, first_year=1990, order=0, rdate_years=None, tzid='Test/Zone', crlf=True, fold=False, extra_zone=None, until=None):
     """VTIMEZONE text stating the same rules as p (M-form rules, ordinary times).
     rdate_years: write explicit RDATE onsets for these years instead of an RRULE."""
     def comp(kind, rule, t, offfrom, offto, name):
@@ -140,7 +140,7 @@ def vtimezone(p, first_year=1990, order=0, rdate_years=None, tzid='Test/Zone', c
                 x = D.datetime.combine(rule_date(y, rule), D.time(0)) + D.timedelta(seconds=t)
                 lines.append("RDATE:%s" % x.strftime('%Y%m%dT%H%M%S'))
         else:
-            lines.append("RRULE:FREQ=YEARLY;BYMONTH=%d;BYDAY=%d%s" % (m, n, WDN[d]))
+            lines.append("RRULE:FREQ=YEARLY;BYMONTH=%d;BYDAY=%d%s%s" % (m, n, WDN[d], (';UNTIL=' + until) if until else ''))
         lines += ["TZOFFSETFROM:%s" % _offstr(offfrom), "TZOFFSETTO:%s" % _offstr(offto), "TZNAME:%s" % name,
                   "END:%s" % kind]
         return lines
